@@ -1,7 +1,7 @@
 #!/bin/sh
 # Runs every registered check at the given tier (default quick) on /repo as it is; prints one line per property.
 tier=${1:-quick}
-cd /verif
+cd "$(dirname "$0")/.."
 rc=0
 for p in C01 C02 C03 C04 C05 C06 C07 C08 C09 C10 C11 C12 C13 C14 C15 C16 C17; do
   ./check $p --tier $tier 2>&1 | grep -E "^VIOLATION|^OK|^KNOWN" || { echo "$p: no verdict"; rc=1; }
